@@ -10,6 +10,7 @@ import (
 	"sort"
 	"strings"
 
+	"golang.org/x/tools/go/cfg"
 	"golang.org/x/tools/go/ssa"
 	"golang.org/x/tools/go/types/typeutil"
 )
@@ -3330,5 +3331,584 @@ func checkC16BlockKeepsChain(c *Ctx, r *Rule) {
 	for _, s := range sites {
 		okv := !s.cst && s.val == sites[0].val
 		r.Check(okv, s.f.Name(), "statement of the block's handle", s.pos, "NewDB: "+s.val+" (a new statement only for a root handle)", "the handle a transaction block receives decides NewDB as `"+s.val+"` here and as `"+sites[0].val+"` in "+sites[0].f.Name()+" (or as a constant): the block loses the chain's statement - batched creates run without the chain's ON CONFLICT rule, Select/Omit and Table")
+	}
+}
+
+// ---- round 10 ----
+
+// C01.args-used: the variadic `args ...interface{}` of the chain and finisher methods are the values of the `?` in
+// the text given next to them.  On every path through such a method the arguments are handed on (stored in an
+// expression, passed to a callee) - or the path has established that there are none.  A path that neither uses them
+// nor knows them to be absent drops bound values while the placeholders stay in the text.  Decided by path
+// enumeration with path-sensitive facts over every exported *DB method with a variadic interface{} parameter.
+func checkC01ArgsUsed(c *Ctx) {
+	p := c.P
+	r := c.Rule("C01.args-used", "exported *DB methods hand their variadic arguments on, on every path that has not established that there are none", 10)
+	dbT := p.Named(pkgGorm, "DB")
+	ptr := types.NewPointer(dbT)
+	ms := types.NewMethodSet(ptr)
+	for i := 0; i < ms.Len(); i++ {
+		m, _ := ms.At(i).Obj().(*types.Func)
+		if m == nil || !m.Exported() {
+			continue
+		}
+		sig := m.Type().(*types.Signature)
+		if !sig.Variadic() {
+			continue
+		}
+		last := sig.Params().At(sig.Params().Len() - 1)
+		sl, ok := last.Type().(*types.Slice)
+		if !ok {
+			continue
+		}
+		if it, ok := sl.Elem().Underlying().(*types.Interface); !ok || it.NumMethods() != 0 {
+			continue
+		}
+		f := p.SrcOpt(m)
+		if f == nil || f.Body == nil || f.Decl == nil {
+			continue
+		}
+		info := f.Pkg.TypesInfo
+		// the parameter object
+		var args types.Object
+		ps := f.Decl.Type.Params.List
+		if len(ps) > 0 && len(ps[len(ps)-1].Names) == 1 {
+			args = info.Defs[ps[len(ps)-1].Names[0]]
+		}
+		if args == nil {
+			continue
+		}
+		name := args.Name()
+		uses := func(n ast.Node) bool {
+			found := false
+			var walk func(n ast.Node, inLen bool)
+			walk = func(n ast.Node, inLen bool) {
+				ast.Inspect(n, func(x ast.Node) bool {
+					switch y := x.(type) {
+					case *ast.CallExpr:
+						if id, ok := y.Fun.(*ast.Ident); ok && id.Name == "len" && len(y.Args) == 1 {
+							return false // len(args) is a test, not a use
+						}
+					case *ast.Ident:
+						if info.Uses[y] == args {
+							found = true
+						}
+					}
+					return true
+				})
+			}
+			walk(n, false)
+			return found
+		}
+		paths, ok := p.EnumPaths(f, nil, 20000)
+		if !ok {
+			r.Unknown(f.Name(), "paths", f.Body.Pos(), "too many paths")
+			continue
+		}
+		bad := 0
+		var where token.Pos = f.Body.Pos()
+		for _, pr := range paths {
+			used := false
+			for _, nd := range pr.Nodes {
+				if uses(nd) {
+					used = true
+				}
+			}
+			if used {
+				continue
+			}
+			none := func(fs factSet) bool {
+				return fs.Has("T:len("+name+") == 0") || fs.Has("F:len("+name+") > 0") || fs.Has("F:len("+name+") != 0") || fs.Has("F:len("+name+") >= 1")
+			}
+			okp := none(pr.Facts)
+			for _, b := range pr.Before {
+				if none(b) {
+					okp = true
+				}
+			}
+			if !okp {
+				bad++
+				where = pr.Exit
+			}
+		}
+		c.Touch(f)
+		r.Check(len(paths) > 0 && bad == 0, f.Name(), "variadic "+name, where, "handed on, or known to be empty, on every path", "a path through (*DB)."+m.Name()+" neither hands `"+name+"` on nor has established that it is empty: the `?` of the text given with them stay in the statement while their values are never bound")
+	}
+}
+
+// C09.session-flags (also C19: DryRun): Session copies the options that exist under the same name in Session and
+// Config onto the new handle's configuration - each under a test of that very option.  Decided: for every field name
+// shared by gorm.Session and gorm.Config (AllowGlobalUpdate, DryRun, SkipDefaultTransaction, PropagateUnscoped, ...)
+// there is an `if` in (*DB).Session whose condition reads config.<F> and whose body stores Config.<F>; and no such
+// `if` stores a DIFFERENT shared field (turning on, say, AllowGlobalUpdate for a PropagateUnscoped session).
+func checkSessionFlags(c *Ctx, r *Rule) {
+	p := c.P
+	f := p.MethodDecl(pkgGorm, "DB", "Session")
+	c.Touch(f)
+	info := f.Pkg.TypesInfo
+	sessS := p.Named(pkgGorm, "Session").Underlying().(*types.Struct)
+	confS := p.Named(pkgGorm, "Config").Underlying().(*types.Struct)
+	confFields := map[string]*types.Var{}
+	for i := 0; i < confS.NumFields(); i++ {
+		confFields[confS.Field(i).Name()] = confS.Field(i)
+	}
+	shared := map[string]*types.Var{} // name -> Session field
+	for i := 0; i < sessS.NumFields(); i++ {
+		sf := sessS.Field(i)
+		if cf, ok := confFields[sf.Name()]; ok && types.Identical(cf.Type(), sf.Type()) {
+			shared[sf.Name()] = sf
+		}
+	}
+	copied := map[string]bool{}
+	ast.Inspect(f.Body, func(n ast.Node) bool {
+		ifs, ok := n.(*ast.IfStmt)
+		if !ok {
+			return true
+		}
+		// the shared Session options the condition reads
+		var reads []string
+		ast.Inspect(ifs.Cond, func(m ast.Node) bool {
+			if sel, ok := m.(*ast.SelectorExpr); ok {
+				if sf, ok := shared[sel.Sel.Name]; ok && fieldSel(info, sel, sf) {
+					reads = append(reads, sel.Sel.Name)
+				}
+			}
+			return true
+		})
+		if len(reads) != 1 {
+			return true
+		}
+		F := reads[0]
+		ast.Inspect(ifs.Body, func(m ast.Node) bool {
+			as, ok := m.(*ast.AssignStmt)
+			if !ok {
+				return true
+			}
+			for _, l := range as.Lhs {
+				sel, ok := unparen(l).(*ast.SelectorExpr)
+				if !ok {
+					continue
+				}
+				cf, isConf := confFields[sel.Sel.Name]
+				if !isConf || !fieldSel(info, sel, cf) {
+					continue
+				}
+				G := sel.Sel.Name
+				if _, isShared := shared[G]; !isShared {
+					continue
+				}
+				if G == F {
+					copied[F] = true
+				} else {
+					r.Bad(f.Name(), "option "+F+" stores Config."+G, as.Pos(), "a session asking for "+F+" turns on "+G+" instead: e.g. a PropagateUnscoped session silently gets AllowGlobalUpdate - a condition-free Update/Delete through it runs against the whole table")
+				}
+			}
+			return true
+		})
+		return true
+	})
+	var names []string
+	for n := range shared {
+		names = append(names, n)
+	}
+	sort.Strings(names)
+	for _, n := range names {
+		r.Check(copied[n], f.Name(), "option "+n, f.Body.Pos(), "copied onto Config."+n+" under a test of config."+n, "Session does not copy the option "+n+" onto the same-named configuration field of the new handle: the session option is ignored")
+	}
+}
+
+// C02.nil-agree: "nil values mean IS NULL" is decided in clause.Eq.Build and, for the negated unit, in
+// clause.Neq.Build; what counts as nil (plain nil, typed nil pointers, NULL-valued driver.Valuers) must be the same
+// on both sides, otherwise a unit and its negation are not complementary for some values.  Decided as sibling
+// agreement: the conditions that guard the IS NULL / IS NOT NULL arms are the same expression over the receiver's
+// Value.
+func checkC02NilAgree(c *Ctx) {
+	p := c.P
+	r := c.Rule("C02.nil-agree", "Eq.Build and Neq.Build decide NULL-ness of their value by the same test", 2)
+	conds := map[string]string{}
+	var poss = map[string]token.Pos{}
+	for _, tn := range []string{"Eq", "Neq"} {
+		f := p.MethodDecl(pkgClause, tn, "Build")
+		c.Touch(f)
+		info := f.Pkg.TypesInfo
+		recv := recvName(f)
+		ast.Inspect(f.Body, func(n ast.Node) bool {
+			ifs, ok := n.(*ast.IfStmt)
+			if !ok {
+				return true
+			}
+			// the then-branch writes IS NULL / IS NOT NULL
+			writes := false
+			for _, st := range ifs.Body.List {
+				ast.Inspect(st, func(m ast.Node) bool {
+					if ce, ok := m.(*ast.CallExpr); ok && len(ce.Args) == 1 {
+						if s, ok := constString(info, ce.Args[0]); ok {
+							if op, ok := normSQLOp(s); ok && (op == "IS NULL" || op == "IS NOT NULL") {
+								writes = true
+							}
+						}
+					}
+					return true
+				})
+			}
+			if writes {
+				conds[tn] = strings.ReplaceAll(canon(info, ifs.Cond), recv+".", "$r.")
+				poss[tn] = ifs.Pos()
+			}
+			return true
+		})
+	}
+	if conds["Eq"] == "" || conds["Neq"] == "" {
+		r.Bad("clause.Eq/Neq", "NULL arms", token.NoPos, "Eq.Build or Neq.Build has no IS NULL / IS NOT NULL arm any more; rule lost its anchor")
+		return
+	}
+	r.OK("clause.(Eq).Build", "NULL test", poss["Eq"], conds["Eq"])
+	r.Check(conds["Eq"] == conds["Neq"], "clause.(Neq).Build", "NULL test", poss["Neq"], "same test as Eq.Build: "+conds["Eq"], "Neq.Build decides NULL-ness by `"+conds["Neq"]+"`, Eq.Build by `"+conds["Eq"]+"`: for the values on which the two disagree (e.g. a NULL-valued driver.Valuer) the unit renders IS NULL but its negation renders `<> NULL`, which selects nothing")
+}
+
+// C04.conn-release: (*DB).Connection pins a connection for a block (a Transaction block may run inside it); "in every
+// case the connection goes back to the pool" includes the block ending by panic.  Decided by path enumeration: on
+// every path that reaches the call of the user function, a `defer <conn>.Close()` of the acquired connection has
+// been registered before it.
+func checkC04ConnRelease(c *Ctx) {
+	p := c.P
+	r := c.Rule("C04.conn-release", "Connection releases the pinned connection by a deferred Close registered before the user function runs", 1)
+	f := p.MethodDecl(pkgGorm, "DB", "Connection")
+	c.Touch(f)
+	info := f.Pkg.TypesInfo
+	// the func parameter
+	var fc types.Object
+	for _, fl := range f.Decl.Type.Params.List {
+		for _, nm := range fl.Names {
+			if o := info.Defs[nm]; o != nil {
+				if _, ok := o.Type().Underlying().(*types.Signature); ok {
+					fc = o
+				}
+			}
+		}
+	}
+	var call *ast.CallExpr
+	for _, ce := range callsIn(f) {
+		if id, ok := unparen(ce.Fun).(*ast.Ident); ok && info.Uses[id] == fc {
+			call = ce
+		}
+	}
+	if fc == nil || call == nil {
+		r.Bad(f.Name(), "user function", f.Body.Pos(), "Connection no longer calls its function parameter; rule lost its anchor")
+		return
+	}
+	isDeferClose := func(n ast.Node) bool {
+		ds, ok := n.(*ast.DeferStmt)
+		if !ok {
+			return false
+		}
+		sel, ok := ds.Call.Fun.(*ast.SelectorExpr)
+		if !ok || sel.Sel.Name != "Close" {
+			return false
+		}
+		return namedOf(info.TypeOf(sel.X)) == "database/sql.Conn"
+	}
+	paths, ok := p.EnumPaths(f, nil, 2000)
+	if !ok {
+		r.Unknown(f.Name(), "paths", f.Body.Pos(), "too many paths")
+		return
+	}
+	bad, seen := 0, 0
+	for _, pr := range paths {
+		at := -1
+		for i, nd := range pr.Nodes {
+			if containsNode(nd, call) {
+				at = i
+				break
+			}
+		}
+		if at < 0 {
+			continue
+		}
+		seen++
+		okp := false
+		for _, nd := range pr.Nodes[:at] {
+			if isDeferClose(nd) {
+				okp = true
+			}
+		}
+		if !okp {
+			bad++
+		}
+	}
+	r.Check(seen > 0 && bad == 0, f.Name(), "connection released on every outcome", call.Pos(), "defer conn.Close() before the block runs", "the user function of Connection runs on a path where no deferred Close of the pinned connection has been registered: when the block (e.g. a Transaction inside it) panics, the connection is never returned to the pool")
+}
+
+// C08.assoc-unscoped: association mode works on the handle the user prepared - db.Unscoped().Model(&x).Association(..)
+// - and its statements on the related table inherit that handle's Unscoped because they are derived from it with its
+// statement.  A session that starts a NEW statement (NewDB: true) inside a method of Association drops the flag: the
+// Unscoped delete mode then only marks rows.  Decided: no Session literal with NewDB: true in the methods of
+// Association unless the same function re-applies Unscoped() under a test of the handle's Unscoped.
+func checkC08AssocUnscoped(c *Ctx) {
+	p := c.P
+	r := c.Rule("C08.assoc-unscoped", "association-mode statements keep the handle's Unscoped: no new-statement session without re-applying it", 8)
+	assocT := p.Named(pkgGorm, "Association")
+	sessT := p.Named(pkgGorm, "Session")
+	unscopedF := p.Field(p.Named(pkgGorm, "Statement"), "Unscoped")
+	for i := 0; i < assocT.NumMethods(); i++ {
+		f := p.SrcOpt(assocT.Method(i))
+		if f == nil || f.Body == nil {
+			continue
+		}
+		info := f.Pkg.TypesInfo
+		var fresh []*ast.CompositeLit
+		for _, lit := range litsOfType(info, f.Body, sessT, true) {
+			if v := compositeField(lit, "NewDB"); v != nil {
+				if b, isC := constBool(info, v); !isC || b {
+					fresh = append(fresh, lit)
+				}
+			}
+		}
+		reapplied := false
+		ast.Inspect(f.Body, func(n ast.Node) bool {
+			ifs, ok := n.(*ast.IfStmt)
+			if !ok {
+				return true
+			}
+			reads := false
+			ast.Inspect(ifs.Cond, func(m ast.Node) bool {
+				if sel, ok := m.(*ast.SelectorExpr); ok && fieldSel(info, sel, unscopedF) {
+					reads = true
+				}
+				return true
+			})
+			if reads {
+				ast.Inspect(ifs.Body, func(m ast.Node) bool {
+					if ce, ok := m.(*ast.CallExpr); ok {
+						if fn, _ := typeutil.Callee(info, ce).(*types.Func); fn != nil && fn.Name() == "Unscoped" {
+							reapplied = true
+						}
+					}
+					return true
+				})
+			}
+			return true
+		})
+		c.Touch(f)
+		r.Check(len(fresh) == 0 || reapplied, f.Name(), "statements on the related table", f.Body.Pos(), "derived from the association's handle with its statement", "a method of Association derives a handle with a NEW statement (Session{NewDB: true}) and does not re-apply Unscoped(): db.Unscoped()...Association(..).Unscoped().Clear()/Replace() then only soft-deletes the related rows")
+	}
+}
+
+// C05.err-overwrite: straight-line version of C05.loop-error - an error-typed local that receives the result of a
+// call and is assigned again before anything read it loses the first error (e.g. the result of the AfterCreate hook
+// overwritten by the result of AfterSave).  Decided on the CFG of every function of packages gorm and callbacks:
+// from an assignment `x = <call>` of an error variable no path reaches another assignment of x without passing a
+// read of x.
+func checkC05ErrOverwrite(c *Ctx) {
+	p := c.P
+	r := c.Rule("C05.err-overwrite", "an error received from a call is read before the variable holding it is assigned again", 20)
+	for _, f := range p.FuncsOf(pkgGorm, pkgCallbacks) {
+		if f.Body == nil {
+			continue
+		}
+		info := f.Pkg.TypesInfo
+		g := p.CFG(f)
+		if g == nil {
+			continue
+		}
+		type asg struct {
+			node ast.Node
+			obj  types.Object
+		}
+		var asgs []asg
+		assignsTo := func(n ast.Node, obj types.Object) bool {
+			hit := false
+			ast.Inspect(n, func(m ast.Node) bool {
+				if _, ok := m.(*ast.FuncLit); ok {
+					return false
+				}
+				if as, ok := m.(*ast.AssignStmt); ok {
+					for _, l := range as.Lhs {
+						if id, ok := unparen(l).(*ast.Ident); ok && info.ObjectOf(id) == obj {
+							hit = true
+						}
+					}
+				}
+				return true
+			})
+			return hit
+		}
+		readsOf := func(n ast.Node, obj types.Object) bool {
+			hit := false
+			ast.Inspect(n, func(m ast.Node) bool {
+				if _, ok := m.(*ast.FuncLit); ok {
+					// a closure capturing the variable may read it
+					ast.Inspect(m, func(q ast.Node) bool {
+						if id, ok := q.(*ast.Ident); ok && info.Uses[id] == obj {
+							hit = true
+						}
+						return true
+					})
+					return false
+				}
+				switch x := m.(type) {
+				case *ast.AssignStmt:
+					for _, rhs := range x.Rhs {
+						ast.Inspect(rhs, func(q ast.Node) bool {
+							if id, ok := q.(*ast.Ident); ok && info.Uses[id] == obj {
+								hit = true
+							}
+							return true
+						})
+					}
+					// x op= ... reads x
+					if x.Tok != token.ASSIGN && x.Tok != token.DEFINE {
+						hit = hit || assignsTo(x, obj)
+					}
+					return false
+				case *ast.Ident:
+					if info.Uses[x] == obj {
+						hit = true
+					}
+				case *ast.ReturnStmt:
+					if len(x.Results) == 0 {
+						hit = true // bare return reads named results
+					}
+				}
+				return true
+			})
+			return hit
+		}
+		for _, b := range g.Blocks {
+			for _, nd := range b.Nodes {
+				as, ok := nd.(*ast.AssignStmt)
+				if !ok {
+					continue
+				}
+				for i, l := range as.Lhs {
+					id, ok := unparen(l).(*ast.Ident)
+					if !ok || id.Name == "_" {
+						continue
+					}
+					obj, _ := info.ObjectOf(id).(*types.Var)
+					if obj == nil || obj.Type().String() != "error" {
+						continue
+					}
+					var rhs ast.Expr
+					if len(as.Rhs) == len(as.Lhs) {
+						rhs = as.Rhs[i]
+					} else if len(as.Rhs) == 1 {
+						rhs = as.Rhs[0]
+					}
+					isCall := false
+					if rhs != nil {
+						ast.Inspect(rhs, func(m ast.Node) bool {
+							if _, ok := m.(*ast.CallExpr); ok {
+								isCall = true
+							}
+							return true
+						})
+					}
+					if isCall {
+						asgs = append(asgs, asg{nd, obj})
+					}
+				}
+			}
+		}
+		for _, a := range asgs {
+			// DFS from the node after a.node
+			lost := token.NoPos
+			seen := map[*cfg.Block]bool{}
+			var walk func(b *cfg.Block, from int)
+			walk = func(b *cfg.Block, from int) {
+				for i := from; i < len(b.Nodes) && lost == token.NoPos; i++ {
+					n := b.Nodes[i]
+					if readsOf(n, a.obj) {
+						return
+					}
+					if assignsTo(n, a.obj) {
+						lost = n.Pos()
+						return
+					}
+				}
+				for _, s := range b.Succs {
+					if !seen[s] && lost == token.NoPos {
+						seen[s] = true
+						walk(s, 0)
+					}
+				}
+			}
+			for _, b := range g.Blocks {
+				for i, n := range b.Nodes {
+					if n == a.node {
+						// the statement itself may test the value: `if err = f(); err != nil`
+						walk(b, i+1)
+					}
+				}
+			}
+			c.Touch(f)
+			r.Check(lost == token.NoPos, f.Name(), "error in "+a.obj.Name(), a.node.Pos(), "read before it is assigned again", "the error a call returned into `"+a.obj.Name()+"` can be overwritten (at "+p.Pos(lost)+") before anything read it: a failing step - e.g. a hook - is reported as success when the next step succeeds")
+		}
+	}
+}
+
+// C03.fresh-row: when rows are read into a slice, every row is scanned into a value of its own, freshly created
+// (reflect.New) - NULL columns leave the setter alone, so a recycled slot would keep what it held before.  Only the
+// write-back modes (RETURNING into the records just written, guarded by `update`) scan into existing records.
+// Decided in gorm.Scan: every assignment to the value handed to scanIntoStruct inside the row loop is a reflect.New
+// call, or lies under the fact that the scan is in update mode.
+func checkC03FreshRow(c *Ctx) {
+	p := c.P
+	r := c.Rule("C03.fresh-row", "gorm.Scan reads every row of a slice destination into a freshly created value (existing records only in update mode)", 2)
+	f := p.FuncDecl(pkgGorm, "Scan")
+	c.Touch(f)
+	info := f.Pkg.TypesInfo
+	sis := p.Method(p.Named(pkgGorm, "DB"), "scanIntoStruct")
+	gs := p.Guards(f, nil)
+	parents := parentMap(f.Body)
+	n := 0
+	for _, call := range callsIn(f) {
+		if fn, _ := typeutil.Callee(info, call).(*types.Func); fn != sis || len(call.Args) < 2 {
+			continue
+		}
+		id, ok := unparen(call.Args[1]).(*ast.Ident)
+		if !ok {
+			continue
+		}
+		// only the call inside a row loop (slice / array destinations)
+		var loop ast.Node
+		for cur := parents[call]; cur != nil && loop == nil; cur = parents[cur] {
+			if _, ok := cur.(*ast.ForStmt); ok {
+				loop = cur
+			}
+		}
+		if loop == nil {
+			continue
+		}
+		obj := info.ObjectOf(id)
+		ast.Inspect(loop, func(x ast.Node) bool {
+			as, ok := x.(*ast.AssignStmt)
+			if !ok || as.Pos() > call.Pos() {
+				return true
+			}
+			for i, l := range as.Lhs {
+				lid, ok := unparen(l).(*ast.Ident)
+				if !ok || info.ObjectOf(lid) != obj || i >= len(as.Rhs) {
+					continue
+				}
+				n++
+				fresh := false
+				if ce, ok := unparen(as.Rhs[i]).(*ast.CallExpr); ok && calleeName(info, ce) == "reflect.New" {
+					fresh = true
+				}
+				facts, live := gs.At(as.Pos())
+				upd := false
+				for fct := range facts {
+					if strings.HasPrefix(fct, "T:") && (strings.HasSuffix(fct, "update") || strings.Contains(fct, "ScanUpdate")) {
+						upd = true
+					}
+				}
+				r.Check(fresh || upd || !live, f.Name(), "value a row is scanned into", as.Pos(), "reflect.New(...) or an existing record in update mode", "a row of a slice destination is scanned into `"+types.ExprString(as.Rhs[i])+"`, which is neither freshly created nor a record being written back: NULL columns (and columns not selected) keep whatever that slot held before")
+			}
+			return true
+		})
+	}
+	if n == 0 {
+		r.Bad(f.Name(), "row loop", f.Body.Pos(), "no row loop handing a value to scanIntoStruct found in gorm.Scan; rule lost its anchor")
 	}
 }
